@@ -72,6 +72,14 @@ theorem C10_others_served (C : Consts) (sizes : Nat → Nat) (s s' : S) (hq : s.
         split at h
         · cases h; exact ⟨Nat.le_refl _, rfl⟩
         · split at h <;> cases h <;> exact ⟨Nat.le_refl _, rfl⟩
+      | unser ow =>
+        cases ow with
+        | false => simp only [] at h; cases h; exact ⟨Nat.le_refl _, rfl⟩
+        | true =>
+          simp only [] at h
+          split at h
+          · cases h; exact ⟨Nat.le_refl _, rfl⟩
+          · split at h <;> cases h <;> exact ⟨Nat.le_refl _, rfl⟩
       | fail ow =>
         simp only [] at h
         split at h
